@@ -17,6 +17,11 @@
        through the same handler chain (held between "response computed" and "response written");
        2 = the same under GOMAXPROCS(1). The model and the monitor are the same per-request
        functions in every mode: each response is judged against its own request.
+     - [now]: the time of the request in whole seconds after the instant the deadlines of the
+       sealed sessions are counted from (0 for requests sent at once; > 0 for the second step of a
+       timed sequence, where the SAME code is presented again after a deadline has passed). The
+       driver measures the wall clock around the request and emits the case only when no deadline
+       lies inside the measured interval.
    A [CVal] case is a client table given to the real Configuration.Validate and NewAuthenticator. *)
 From V Require Export Base CorrBase AuthBack.
 
@@ -30,11 +35,11 @@ Definition pcall_eqb (a b : pcall) : bool :=
   | _, _ => false
   end.
 
-(* expires_in of /redeem is computed from the wall clock: the observation may lag by [tol] s *)
+(* expires_in of /redeem is computed from the wall clock: the observation may differ by [tol] s *)
 Definition expires_close (tol : Z) (m o : option Z) : bool :=
   match m, o with
   | None, None => true
-  | Some a, Some b => ((b <=? a) && (a - tol <=? b))%Z
+  | Some a, Some b => ((b <=? a + tol) && (a - tol <=? b))%Z
   | _, _ => false
   end.
 
@@ -55,7 +60,7 @@ Fixpoint assoc_tab (c : str) (t : list (str * (N * session))) : option (N * sess
   end.
 
 Inductive case :=
-| CReq (mode : N) (cfg : config) (o_valid : bool) (pre : bool) (r : request)
+| CReq (mode : N) (now : Z) (cfg : config) (o_valid : bool) (pre : bool) (r : request)
        (tab : list (str * (N * session))) (ref : refresh_answer) (grp : groups_answer) (valid : bool)
        (ids secrets : list str) (kind : N) (csess : option session)
        (o_status : N) (o_calls : list pcall) (o_body : body) (o_leak : bool) (o_foreign : bool)
@@ -70,9 +75,9 @@ Inductive case :=
    7 sealed by another authenticator *)
 Definition kind_genuine (k : N) : bool := N.eqb k 1 || N.eqb k 2.
 
-Definition mk_env (tab : list (str * (N * session))) (ref : refresh_answer) (grp : groups_answer)
+Definition mk_env (now : Z) (tab : list (str * (N * session))) (ref : refresh_answer) (grp : groups_answer)
   (valid : bool) : env :=
-  {| e_now := 0; e_open := fun c => assoc_tab c tab; e_refresh := ref; e_groups := grp; e_valid := valid |}.
+  {| e_now := now; e_open := fun c => assoc_tab c tab; e_refresh := ref; e_groups := grp; e_valid := valid |}.
 
 (* ClientConfig.Validate *)
 Definition cfg_valid (cfg : config) : bool := negb (is_nil (cfg_id cfg)) && negb (is_nil (cfg_secret cfg)).
@@ -93,12 +98,12 @@ Definition effects (status : N) (calls : list pcall) (b : body) (leak : bool) : 
   negb (is_nil calls) || is_2xx status || has_field b || leak.
 
 (* the 200 body of /redeem is exactly the sealed session *)
-Definition body_is_session (s : session) (b : body) : bool :=
+Definition body_is_session (now : Z) (s : session) (b : body) : bool :=
   opt_str_eqb (b_access b) (Some (s_access s)) && opt_str_eqb (b_refresh b) (Some (s_refresh_tok s)) &&
-  opt_str_eqb (b_email b) (Some (s_email s)) && expires_close 10 (Some (s_refresh_dl s)) (b_expires b) &&
+  opt_str_eqb (b_email b) (Some (s_email s)) && expires_close 10 (Some (s_refresh_dl s - now)%Z) (b_expires b) &&
   negb (is_some (b_groups b)).
 
-Definition holds_req (cfg : config) (r : request) (ids secrets : list str) (kind : N) (csess : option session)
+Definition holds_req (now : Z) (cfg : config) (r : request) (ids secrets : list str) (kind : N) (csess : option session)
   (status : N) (calls : list pcall) (b : body) (leak : bool) (foreign : bool) : bool :=
   (* D: nothing of another request's secrets, ever (requests in flight at once do not mix) *)
   negb foreign &&
@@ -109,7 +114,7 @@ Definition holds_req (cfg : config) (r : request) (ids secrets : list str) (kind
   (negb (str_eqb (rq_path r) p_redeem) ||
    (is_nil calls &&
     if is_2xx status
-    then kind_genuine kind && match csess with Some s => body_is_session s b | None => false end
+    then kind_genuine kind && match csess with Some s => body_is_session now s b | None => false end
     else negb (has_field b) && negb leak)) &&
   (* C: an error response reveals nothing, whoever asks *)
   (is_2xx status || (negb (has_field b) && negb leak)).
@@ -134,8 +139,8 @@ Fixpoint has_client (n : str) (cs : list (str * (str * str))) : bool :=
 
 Definition judge (c : case) : N :=
   match c with
-  | CReq mode cfg o_valid pre r tab ref grp valid ids secrets kind csess o_status o_calls o_body o_leak o_foreign =>
-      let e := mk_env tab ref grp valid in
+  | CReq mode now cfg o_valid pre r tab ref grp valid ids secrets kind csess o_status o_calls o_body o_leak o_foreign =>
+      let e := mk_env now tab ref grp valid in
       let m := serve cfg e pre r in
       let tol := if str_eqb (rq_path r) p_redeem then 10%Z else 0%Z in
       let mismatch :=
@@ -143,7 +148,7 @@ Definition judge (c : case) : N :=
               body_close tol (rs_body m) o_body && bool_eqb (cfg_valid cfg) o_valid &&
               sane cfg r e ids secrets kind csess) in
       (* guard of the property: the configuration passed Validate (observed on the real code) *)
-      code mismatch (negb o_valid || holds_req cfg r ids secrets kind csess o_status o_calls o_body o_leak o_foreign) 0
+      code mismatch (negb o_valid || holds_req now cfg r ids secrets kind csess o_status o_calls o_body o_leak o_foreign) 0
   | CVal clients o_ok o_id o_secret =>
       let '(mid, msec) := new_authenticator_creds clients in
       let mismatch := negb (bool_eqb (clients_validate clients) o_ok && str_eqb mid o_id && str_eqb msec o_secret) in
@@ -170,11 +175,11 @@ Definition endpoint_no (p : str) : N :=
 
 Definition classify (c : case) : N :=
   match c with
-  | CReq mode cfg o_valid pre r tab ref grp valid ids secrets kind csess o_status o_calls o_body o_leak o_foreign =>
+  | CReq mode now cfg o_valid pre r tab ref grp valid ids secrets kind csess o_status o_calls o_body o_leak o_foreign =>
       let ep := endpoint_no (rq_path r) in
       if N.eqb ep 0 then 0
       else
-        let m := serve cfg (mk_env tab ref grp valid) pre r in
+        let m := serve cfg (mk_env now tab ref grp valid) pre r in
         let outcome :=
           match rs_ran m with
           | None => if N.eqb o_status 405 then 1 else if N.eqb o_status 500 then 2 else 3
